@@ -6,7 +6,15 @@
 (* Records 1..N are written in order; record i carries sequence number i.         *)
 (* Action <-> code:                                                               *)
 (*   WriteRecord   failoverWriter.WriteRecord: recordQueue.push, then             *)
-(*                 SyncRecordGeneralized on the current LogWriter (if any)        *)
+(*                 SyncRecordGeneralized on the current LogWriter (if any).       *)
+(*                 recordQueue is an explicit ring: qbuf (qcap slots, 0 = zero    *)
+(*                 entry), absolute indices head = next-1 and tail = qtail-1      *)
+(*                 taken modulo qcap; push doubles a full ring and re-slots the   *)
+(*                 live entries [tail, head) (i%n -> i%m), zeroes the slots of    *)
+(*                 [lastTailObservedByProducer, tail) and then stores the entry   *)
+(*                 at head%m (this order only).  The consumers (pop) and the switch snapshot read the   *)
+(*                 entries back from the slots, so a misplaced / zeroed entry is  *)
+(*                 replayed as an empty record and its waiter is never released.  *)
 (*   SwitchStart   switchToNewDir: reserve slot nextWriterIndex, start async work *)
 (*   CreateFile(w) logCreator (file create in the writer's directory)             *)
 (*   DirSync(w)    dir.Sync; then, under ww.mu: if still the latest writer and    *)
@@ -31,14 +39,19 @@ CONSTANTS N,            \* records
           W,            \* physical log writers (segments) at most
           SyncSet,      \* records that request a sync
           MaxFaults,
+          QCap,         \* initial capacity of the recordQueue ring (code: initialBufferLen = 8192)
           BugDedupLT,       \* reader skips only seqnum < lastSeqNum
           BugNoReplay,      \* a switch does not replay the queued records into the new writer
           BugPopBeyondSync, \* doneSync pops every queued sync request, not only the synced ones
+          BugGrowCopyUnwrapped, \* growth copies slot j to slot j (copy(new, old)) instead of re-slotting i%n -> i%m
+          BugReclaimAfterPut,   \* the reclaim loop runs after the new entry is stored and may zero it: queue exactly
+                                \* full, a pop, a push (the order of wal/failover_writer.go before fix af7513dfb)
           GenMode           \* schedule generation (-simulate): one crash outcome, no crash before half the records
 
-VARIABLES next, qtail, wr, nwi, cur, released, relerr, closing, closed, closeErr, faults, phase, disk, out, hist
-vars == <<next, qtail, wr, nwi, cur, released, relerr, closing, closed, closeErr, faults, phase, disk, out, hist>>
-view == <<next, qtail, wr, nwi, cur, released, relerr, closing, closed, closeErr, faults, phase, disk, out>>
+VARIABLES next, qtail, qcap, qbuf, qlast, wr, nwi, cur, released, relerr, closing, closed, closeErr, faults, phase, disk, out, bad, hist
+ring == <<qcap, qbuf, qlast>>
+vars == <<next, qtail, ring, wr, nwi, cur, released, relerr, closing, closed, closeErr, faults, phase, disk, out, bad, hist>>
+view == <<next, qtail, ring, wr, nwi, cur, released, relerr, closing, closed, closeErr, faults, phase, disk, out, bad>>
 
 Writers == 0..(W - 1)
 NoWriter == [st |-> "none", q |-> <<>>, written |-> 0, synced |-> 0, failed |-> FALSE, cl |-> FALSE]
@@ -47,7 +60,27 @@ Range(s) == {s[i] : i \in 1..Len(s)}
 FromTo(a, b) == [i \in 1..(b - a + 1) |-> a + i - 1]
 H(e) == hist' = Append(hist, e)
 
+(* ---- recordQueue ring: record r has queue index r - 1; index i lives in slot (i % capacity) ---- *)
+Slot(i, m) == (i % m) + 1
+QHead == next - 1
+QTail == qtail - 1
+Entry(i) == qbuf[Slot(i, qcap)]
+Entries(a, b) == {Entry(i) : i \in a..b}
+Snapshot == [k \in 1..(QHead - QTail) |-> Entry(QTail + k - 1)]          \* snapshotAndSwitchWriter
+PushFull == QHead - QTail = qcap
+PushCap == IF PushFull THEN 2 * qcap ELSE qcap
+Grown == LET m == 2 * qcap IN
+  IF BugGrowCopyUnwrapped THEN [j \in 1..m |-> IF j <= qcap THEN qbuf[j] ELSE 0]
+  ELSE [j \in 1..m |-> IF \E i \in QTail..(QHead - 1) : Slot(i, m) = j
+                       THEN qbuf[Slot(CHOOSE i \in QTail..(QHead - 1) : Slot(i, m) = j, qcap)] ELSE 0]
+Pushed == LET m == PushCap
+              b0 == IF PushFull THEN Grown ELSE qbuf
+              zero(b) == [j \in 1..m |-> IF \E i \in qlast..(QTail - 1) : Slot(i, m) = j THEN 0 ELSE b[j]]
+              put(b) == [b EXCEPT ![Slot(QHead, m)] = next]
+          IN IF BugReclaimAfterPut THEN zero(put(b0)) ELSE put(zero(b0))
+
 Init ==
+  /\ qcap = QCap /\ qbuf = [j \in 1..QCap |-> 0] /\ qlast = 0 /\ bad = FALSE
   /\ next = 1 /\ qtail = 1 /\ wr = [w \in Writers |-> NoWriter] /\ nwi = 0 /\ cur = -1
   /\ released = {} /\ relerr = {} /\ closing = FALSE /\ closed = FALSE /\ closeErr = FALSE
   /\ faults = 0 /\ phase = "run" /\ disk = [w \in Writers |-> -1] /\ out = <<>> /\ hist = <<>>
@@ -56,15 +89,17 @@ Running == phase = "run"
 
 WriteRecord ==
   /\ Running /\ ~closing /\ next <= N
+  /\ qbuf' = Pushed /\ qcap' = PushCap /\ qlast' = QTail
   /\ wr' = (IF cur >= 0 /\ ~wr[cur].failed THEN [wr EXCEPT ![cur].q = Append(@, next)] ELSE wr)
-  /\ next' = next + 1 /\ H(<<"W", next>>)
-  /\ UNCHANGED <<qtail, nwi, cur, released, relerr, closing, closed, closeErr, faults, phase, disk, out>>
+  /\ next' = next + 1
+  /\ hist' = hist \o (IF PushFull THEN << <<"GROW", QTail>> >> ELSE <<>>) \o << <<"W", next>> >>
+  /\ UNCHANGED <<qtail, nwi, cur, released, relerr, closing, closed, closeErr, faults, phase, disk, out, bad>>
 
 SwitchStart ==
   /\ Running /\ ~closed /\ nwi < W
   /\ (IF GenMode /\ nwi >= 2 THEN wr[nwi - 1].st \in {"ready", "createfailed"} ELSE TRUE)
   /\ wr' = [wr EXCEPT ![nwi].st = "creating"] /\ nwi' = nwi + 1 /\ H(<<"SW", nwi>>)
-  /\ UNCHANGED <<next, qtail, cur, released, relerr, closing, closed, closeErr, faults, phase, disk, out>>
+  /\ UNCHANGED <<next, ring, qtail, cur, released, relerr, closing, closed, closeErr, faults, phase, disk, out, bad>>
 
 CreateFile(w) ==
   /\ Running /\ wr[w].st = "creating"
@@ -72,17 +107,17 @@ CreateFile(w) ==
        /\ faults' = (IF fail THEN faults + 1 ELSE faults)
        /\ wr' = [wr EXCEPT ![w].st = IF fail THEN "createfailed" ELSE "created"]
        /\ H(<<IF fail THEN "CRF" ELSE "CR", w>>)
-  /\ UNCHANGED <<next, qtail, nwi, cur, released, relerr, closing, closed, closeErr, phase, disk, out>>
+  /\ UNCHANGED <<next, ring, qtail, nwi, cur, released, relerr, closing, closed, closeErr, phase, disk, out, bad>>
 
 DirSync(w) ==
   /\ Running /\ wr[w].st = "created"
   /\ (IF w + 1 = nwi /\ ~closed
-      THEN /\ wr' = [wr EXCEPT ![w].st = "ready", ![w].q = IF BugNoReplay THEN <<>> ELSE FromTo(qtail, next - 1)]
+      THEN /\ wr' = [wr EXCEPT ![w].st = "ready", ![w].q = IF BugNoReplay THEN <<>> ELSE Snapshot]
            /\ cur' = w
       ELSE /\ wr' = [wr EXCEPT ![w].st = "unused", ![w].cl = TRUE]
            /\ cur' = cur)
   /\ H(<<"DS", w>>)
-  /\ UNCHANGED <<next, qtail, nwi, released, relerr, closing, closed, closeErr, faults, phase, disk, out>>
+  /\ UNCHANGED <<next, ring, qtail, nwi, released, relerr, closing, closed, closeErr, faults, phase, disk, out, bad>>
 
 Live(w) == wr[w].st = "ready" /\ ~wr[w].failed /\ ~wr[w].cl
 
@@ -91,7 +126,7 @@ Flush(w) ==
   /\ Running /\ Live(w) /\ wr[w].written < Len(wr[w].q)
   /\ \E k \in (wr[w].written + 1)..Len(wr[w].q) : wr' = [wr EXCEPT ![w].written = k]
   /\ H(<<"FL", w>>)
-  /\ UNCHANGED <<next, qtail, nwi, cur, released, relerr, closing, closed, closeErr, faults, phase, disk, out>>
+  /\ UNCHANGED <<next, ring, qtail, nwi, cur, released, relerr, closing, closed, closeErr, faults, phase, disk, out, bad>>
 
 SyncReq(w, upto) == {wr[w].q[i] : i \in 1..upto} \cap SyncSet \cap {r \in 1..N : r >= qtail}
 Sync(w) ==
@@ -100,28 +135,28 @@ Sync(w) ==
      /\ S # {}
      /\ wr' = [wr EXCEPT ![w].synced = wr[w].written]
      /\ qtail' = Max({qtail, Max(S) + 1})
-     /\ released' = released \cup {r \in SyncSet : qtail <= r /\ r <= Max(S)}
+     /\ released' = released \cup (Entries(QTail, Max(S) - 1) \cap SyncSet)    \* pop(index): Done of the entries found in the slots
   /\ H(<<"SY", w>>)
-  /\ UNCHANGED <<next, nwi, cur, relerr, closing, closed, closeErr, faults, phase, disk, out>>
+  /\ UNCHANGED <<next, ring, nwi, cur, relerr, closing, closed, closeErr, faults, phase, disk, out, bad>>
 
 Fail(w) ==
   /\ Running /\ Live(w) /\ faults < MaxFaults /\ Len(wr[w].q) > wr[w].synced
   /\ wr' = [wr EXCEPT ![w].failed = TRUE] /\ faults' = faults + 1 /\ H(<<"FAIL", w>>)
-  /\ UNCHANGED <<next, qtail, nwi, cur, released, relerr, closing, closed, closeErr, phase, disk, out>>
+  /\ UNCHANGED <<next, ring, qtail, nwi, cur, released, relerr, closing, closed, closeErr, phase, disk, out, bad>>
 
 CloseStart ==
   /\ Running /\ ~closing /\ nwi > 0 /\ (GenMode => (2 * next > N /\ cur >= 0)) /\ closing' = TRUE /\ H(<<"CLOSE", 0>>)
-  /\ UNCHANGED <<next, qtail, wr, nwi, cur, released, relerr, closed, closeErr, faults, phase, disk, out>>
+  /\ UNCHANGED <<next, ring, qtail, wr, nwi, cur, released, relerr, closed, closeErr, faults, phase, disk, out, bad>>
 
 (* LogWriter.Close: flush everything, sync; the last writer also reports the last queued record *)
 CloseWriter(w) ==
   /\ Running /\ closing /\ ~closed /\ Live(w)
   /\ wr' = [wr EXCEPT ![w].written = Len(wr[w].q), ![w].synced = Len(wr[w].q), ![w].cl = TRUE]
   /\ (IF w + 1 = nwi
-      THEN qtail' = next /\ released' = released \cup {r \in SyncSet : qtail <= r /\ r < next}
+      THEN qtail' = next /\ released' = released \cup (Entries(QTail, QHead - 1) \cap SyncSet)
       ELSE qtail' = qtail /\ released' = released)
   /\ H(<<"CLW", w>>)
-  /\ UNCHANGED <<next, nwi, cur, relerr, closing, closed, closeErr, faults, phase, disk, out>>
+  /\ UNCHANGED <<next, ring, nwi, cur, relerr, closing, closed, closeErr, faults, phase, disk, out, bad>>
 
 LastDone == LET l == nwi - 1 IN wr[l].cl \/ wr[l].failed \/ wr[l].st = "createfailed"
 CloseDone ==
@@ -130,9 +165,9 @@ CloseDone ==
   /\ closeErr' = (wr[nwi - 1].failed \/ wr[nwi - 1].st = "createfailed")
   \* popAll(err): with an error the remaining waiters are released with it
   /\ relerr' = (IF wr[nwi - 1].failed \/ wr[nwi - 1].st = "createfailed"
-                THEN relerr \cup {r \in SyncSet : qtail <= r /\ r < next} ELSE relerr)
+                THEN relerr \cup (Entries(QTail, QHead - 1) \cap SyncSet) ELSE relerr)
   /\ H(<<"CLOSED", 0>>)
-  /\ UNCHANGED <<next, qtail, wr, nwi, cur, released, closing, faults, phase, disk, out>>
+  /\ UNCHANGED <<next, ring, qtail, wr, nwi, cur, released, closing, faults, phase, disk, out, bad>>
 
 HasFile(w) == wr[w].st \in {"created", "ready", "unused"}
 (* crash: synced data survives, any prefix of written-but-unsynced data may;   *)
@@ -147,27 +182,30 @@ Crash ==
        ELSE IF wr[w].st = "created" THEN disk'[w] \in {-1, 0}
        ELSE wr[w].synced <= disk'[w] /\ disk'[w] <= wr[w].written
   /\ H(<<"CRASH", 0>>)
-  /\ UNCHANGED <<next, qtail, wr, nwi, cur, released, relerr, closing, closed, closeErr, faults, out>>
+  /\ UNCHANGED <<next, ring, qtail, wr, nwi, cur, released, relerr, closing, closed, closeErr, faults, out, bad>>
 
 (* a clean stop: everything written is readable *)
 Stop ==
   /\ Running /\ closed /\ phase' = "crashed"
   /\ disk' = [w \in Writers |-> IF HasFile(w) THEN wr[w].written ELSE -1]
   /\ H(<<"STOP", 0>>)
-  /\ UNCHANGED <<next, qtail, wr, nwi, cur, released, relerr, closing, closed, closeErr, faults, out>>
+  /\ UNCHANGED <<next, ring, qtail, wr, nwi, cur, released, relerr, closing, closed, closeErr, faults, out, bad>>
 
-(* virtualWALReader over the surviving segments *)
+(* virtualWALReader over the surviving segments; result <<records, bad>>.  An empty   *)
+(* record (entry 0) is no batch: the reader stops with "invalid batch" (corruption).   *)
 RECURSIVE Merge(_, _, _, _)
 Merge(w, i, last, acc) ==
-  IF w >= W THEN acc
+  IF w >= W THEN <<acc, FALSE>>
   ELSE IF disk[w] < 0 \/ i > disk[w] THEN Merge(w + 1, 1, last, acc)
   ELSE LET r == wr[w].q[i] IN
-       IF (IF BugDedupLT THEN r < last ELSE r <= last) THEN Merge(w, i + 1, last, acc)
+       IF r = 0 THEN <<acc, TRUE>>
+       ELSE IF (IF BugDedupLT THEN r < last ELSE r <= last) THEN Merge(w, i + 1, last, acc)
        ELSE Merge(w, i + 1, r, Append(acc, r))
 ReadLogical ==
-  /\ phase = "crashed" /\ phase' = "read" /\ out' = Merge(0, 1, 0, <<>>)
+  /\ phase = "crashed" /\ phase' = "read"
+  /\ LET m == Merge(0, 1, 0, <<>>) IN out' = m[1] /\ bad' = m[2]
   /\ H(<<"READ", 0>>)
-  /\ UNCHANGED <<next, qtail, wr, nwi, cur, released, relerr, closing, closed, closeErr, faults, disk>>
+  /\ UNCHANGED <<next, ring, qtail, wr, nwi, cur, released, relerr, closing, closed, closeErr, faults, disk>>
 
 Next == \/ WriteRecord \/ SwitchStart \/ CloseStart \/ CloseDone \/ Crash \/ Stop \/ ReadLogical
         \/ \E w \in Writers : CreateFile(w) \/ DirSync(w) \/ Flush(w) \/ Sync(w) \/ Fail(w) \/ CloseWriter(w)
@@ -176,13 +214,15 @@ Spec == Init /\ [][Next]_vars
 (* ------------------------------- C21 ------------------------------------ *)
 Read == phase = "read"
 ExactlyOnceInOrder == Read => \A i \in 1..(Len(out) - 1) : out[i] < out[i + 1]
-NothingForeign == Read => Range(out) \subseteq 1..(next - 1)
+NothingForeign == Read => (Range(out) \subseteq 1..(next - 1) /\ ~bad)
 AckedSyncedPresent == Read => released \subseteq Range(out)
 NoHoles == Read => Range(out) = 1..Len(out)
 CleanCloseComplete == (Read /\ closed /\ ~closeErr /\ hist[Len(hist) - 1][1] = "STOP") => out = FromTo(1, next - 1)
 (* a waiter is released only once its record is synced in some segment *)
 ReleasedIsSynced == \A r \in released : \E w \in Writers : \E i \in 1..wr[w].synced : wr[w].q[i] = r
-Inv == /\ ExactlyOnceInOrder /\ NothingForeign /\ AckedSyncedPresent /\ NoHoles /\ CleanCloseComplete
+(* once Close has returned every sync waiter has been signalled (pop / popAll found its Done) *)
+AllWaitersReleased == closed => (SyncSet \cap 1..(next - 1)) \subseteq (released \cup relerr)
+Inv == /\ AllWaitersReleased /\ ExactlyOnceInOrder /\ NothingForeign /\ AckedSyncedPresent /\ NoHoles /\ CleanCloseComplete
        /\ (BugPopBeyondSync \/ ReleasedIsSynced)
 
 (* generator: print the schedule of a finished behaviour *)
